@@ -191,7 +191,9 @@ CONSTANTS Hosts,      \* set of host byte strings
 Shapes == {"plain", "padded-varints", "trailing-bytes", "long-frame-varint"}
 \* "grouped": three such cases run concurrently (each through its own proxy), the forwarding
 \* goroutines held after the handshake re-encode until all have re-encoded
-Delivery == {"one-segment", "handshake-first", "byte-by-byte", "grouped"}
+\* "after-failed-backend": the route lists a backend on the same host that refuses the connection
+\* before the one that accepts
+Delivery == {"one-segment", "handshake-first", "byte-by-byte", "grouped", "after-failed-backend"}
 
 VARIABLES c
 Init == c \in [host : Hosts, proto : Protos, port : Ports, next : Nexts,
